@@ -57,10 +57,17 @@ def heights(n, symbolic_ctx=None):
 class Member:
     """One block of the collection together with the symbols injected into it."""
 
-    def __init__(self, ctx, k, btype, pattern, zeroFlux=True, burn=True, h=None, zeroAt=None, symT=True):
+    def __init__(self, ctx, k, btype, pattern, zeroFlux=True, burn=True, h=None, zeroAt=None, symT=True, fat=False):
         self.k = k
         self.b = b = _build.mk_block(btype, height=10.0 if is_sym(h) else h, intercoolant=False)
         b.name = "B%04d" % k
+        if fat:
+            # a member with a different cross-sectional area (fewer pins, wider duct): weights that should contain the
+            # volume must not be confused with height-only weights
+            b.getComponentByName("fuel").setDimension("mult", 61.0)
+            b.getComponentByName("clad").setDimension("mult", 61.0)
+            b.getComponentByName("duct").setDimension("op", 19.0)
+            b.clearCache()
         self.vol = {}
         if is_sym(h):
             b.p.height = h
@@ -191,7 +198,8 @@ def build(ctx, case, pattern, symH=False, allZeros=False, **kw):
     hs = heights(len(types), ctx if symH else None)
     n = len(types)
     kw.setdefault("zeroAt", None if symH or allZeros else (min(1, n - 1),))
-    members = [Member(ctx, k, t, pattern, h=hs[k], **kw) for k, t in enumerate(types)]
+    fatFirst = kw.pop("fatFirst", False)
+    members = [Member(ctx, k, t, pattern, h=hs[k], fat=(fatFirst and k == 0), **kw) for k, t in enumerate(types)]
     for m in members:
         m.values(ctx, NUCS)
     elig = [m for m, t in zip(members, types) if valid is None or t in valid]
@@ -362,10 +370,12 @@ KNOWN_DEFECT_burnup_counts_ineligible_members = False  # repaired in /repo (fix:
                        "[0,1e3] incl. 0; block-type filters enumerated",
          stubs=STUBS, qtimeout_ms=20000,
          instances={"quick": [dict(case="all3", kind="flux"), dict(case="all2", kind="volume"),
-                              dict(case="last_out", kind="flux"), dict(case="first_out", kind="volume")],
-                    "thorough": [dict(case=c, kind=k) for c in CASES for k in ("flux", "volume")]})
-def averaged_burnup_is_heavy_metal_weighted_mean(ctx, case, kind):
-    members, elig, valid = build(ctx, case, "sparse", burn=True)
+                              dict(case="last_out", kind="flux"), dict(case="first_out", kind="volume"),
+                              dict(case="all3", kind="flux", fatFirst=True), dict(case="all2", kind="volume", fatFirst=True)],
+                    "thorough": [dict(case=c, kind=k, fatFirst=f) for c in CASES for k in ("flux", "volume")
+                                 for f in (False, True)]})
+def averaged_burnup_is_heavy_metal_weighted_mean(ctx, case, kind, fatFirst=False):
+    members, elig, valid = build(ctx, case, "sparse", burn=True, fatFirst=fatFirst)
     weighted = kind == "flux"
     col = make_collection(kind, valid)
     col.extend(m.b for m in members)
